@@ -35,7 +35,7 @@ ASSUMPTIONS = [
     "a nondeterminism that needs one specific address collision may be missed",
     "absolute interval addresses after the final re-layout are compared as a separate facet (they are assigned by gtirb_layout iterating sets)",
 ]
-BUDGET = {"quick": (32, 50), "thorough": (2000, 540)}
+BUDGET = {"quick": (48, 80), "thorough": (2000, 540)}
 # every batch runs 6 (thorough: 10) child interpreters at once
 WORKERS = 3
 REQUIRED_COUNTERS = ["scenarios_compared", "child_runs"]
